@@ -1,6 +1,7 @@
 //! vfront: checks of the asn1rs front end (tokenizer, parser, resolver, model conversions, code generators).
 mod c07;
 mod c08;
+mod c09;
 mod c12;
 mod c13;
 mod c14;
@@ -25,6 +26,7 @@ fn main() {
     let code = match ctx.prop.as_str() {
         "C07" => c07::run(ctx),
         "C08" => c08::run(ctx),
+        "C09" => c09::run(ctx),
         "C12" => c12::run(ctx),
         "C13" => c13::run(ctx),
         "C14" => c14::run(ctx),
